@@ -125,6 +125,35 @@ def btMatch (c : BTCtx) : Nat → Nat → Nat → Array Bool → Bool × Array B
       else (false, vis)
     | .fail => (false, vis)
 
+/-- like `btMatch`, but a match state only counts at offset `e`: is `h[pos:e]` accepted from state `q`? -/
+def btSpan (c : BTCtx) (e : Nat) : Nat → Nat → Nat → Array Bool → Bool × Array Bool
+  | 0, _, _, vis => (false, vis)
+  | fuel+1, pos, q, vis =>
+    if q ≥ c.N.states.size then (false, vis) else
+    if vis.getD (c.idx q pos) true then (false, vis) else
+    let vis := vis.setIfInBounds (c.idx q pos) true
+    match c.N.get q with
+    | .mtch => (pos = e, vis)
+    | .byteRange lo hi nx =>
+      if pos < c.h.size ∧ lo ≤ c.h.at pos ∧ c.h.at pos ≤ hi then btSpan c e fuel (pos+1) nx vis else (false, vis)
+    | .sparse ts =>
+      if pos ≥ c.h.size then (false, vis) else
+      match firstTrans (c.h.at pos) ts with
+      | some nx => btSpan c e fuel (pos+1) nx vis
+      | none => (false, vis)
+    | .split l r =>
+      let (ok, vis) := btSpan c e fuel pos l vis
+      if ok then (true, vis) else btSpan c e fuel pos r vis
+    | .eps nx => btSpan c e fuel pos nx vis
+    | .cap _ _ nx => btSpan c e fuel pos nx vis
+    | .look k nx => if lookOK k c.h pos then btSpan c e fuel pos nx vis else (false, vis)
+    | .runeAny nx =>
+      if pos < c.h.size ∧ runeWidth c.h pos > 0 then btSpan c e fuel (pos + runeWidth c.h pos) nx vis else (false, vis)
+    | .runeAnyNotNL nx =>
+      if pos < c.h.size ∧ c.h.at pos ≠ 10 ∧ runeWidth c.h pos > 0 then btSpan c e fuel (pos + runeWidth c.h pos) nx vis
+      else (false, vis)
+    | .fail => (false, vis)
+
 def btFuel (N : NFA) (h : Bytes) : Nat := N.states.size * (h.size + 2) + 2
 
 def freshVis (N : NFA) (h : Bytes) : Array Bool := Array.replicate (N.states.size * (h.size + 1)) false
@@ -182,5 +211,9 @@ def btSearchFrom (N : NFA) (h : Bytes) (at_ : Nat) : Nat → Nat → Option (Nat
 
 def btSearchAt (N : NFA) (h : Bytes) (at_ : Nat) : Option (Nat × Nat) :=
   btSearchFrom N h at_ (h.size + 2 - at_) at_
+
+/-- decision procedure for `Accepts N h s e` -/
+def acceptsSpan (N : NFA) (h : Bytes) (s e : Nat) : Bool :=
+  (btSpan { N := N, h := h, spanStart := 0 } e (btFuel N h) s N.startAnchored (freshVis N h)).1
 
 end Cx.Nfa
